@@ -13,6 +13,7 @@ import (
 	"bytes"
 	"crypto/tls"
 	"fmt"
+	"strings"
 	"testing"
 	"time"
 
@@ -36,7 +37,15 @@ func (c Case) String() string {
 const announce = "X-SOCKETACE / HTTP/1.1\r\nAccepts-Protocol-Version: v2.0.0\r\nUser-Agent: staller\r\n\r\n"
 const upgrade = "GET / HTTP/1.1\r\nConnection: upgrade\r\nUpgrade: socketace/v2.0.0\r\n\r\n"
 
+// established: the peer completed the whole handshake (a real client) and stalls as a user
+// of the tunnel
+var established = []string{"established-app-not-reading", "established-target-not-reading", "established-target-dial-blocks"}
+
 func stallPoints(endpoint string) []string {
+	return append(handshakeStallPoints(endpoint), established...)
+}
+
+func handshakeStallPoints(endpoint string) []string {
 	switch endpoint {
 	case "socket", "packet":
 		return []string{"after-connect", "partial-request-line", "between-announce-and-upgrade", "after-upgrade-silence", "after-upgrade-garbage"}
@@ -53,6 +62,45 @@ func stallPoints(endpoint string) []string {
 // stall makes one misbehaving peer; it returns a function reporting whether the peer is
 // still connected (the server did not drop it).
 func stall(w *world.World, c Case) (alive func() bool, err error) {
+	if strings.HasPrefix(c.Stall, "established-") {
+		ups := w.NewClient()
+		ch := "x"
+		if c.Stall == "established-target-dial-blocks" {
+			ch = "slow"
+		}
+		app := w.OpenAppVia(ups, ch, nil)
+		bubble.Wait()
+		if c.Endpoint == "dns" {
+			bubble.Advance(20 * time.Second)
+		}
+		big := 8 << 20
+		if c.Endpoint == "dns" {
+			big = 256 << 10
+		}
+		alive = func() bool { o := app.Obs(); return !o.EOF && o.Err == "" }
+		if ch == "slow" {
+			app.StartWrite(world.Payload(0x99, 0, 1000))
+			bubble.Wait()
+			return alive, nil
+		}
+		n := w.Chans[0].NumTargets()
+		if n == 0 {
+			return nil, fmt.Errorf("the stalling peer itself got no logical connection (front=%q)", w.Front.Err)
+		}
+		tg := w.Chans[0].Target(n - 1)
+		if c.Stall == "established-app-not-reading" {
+			app.Pause()
+			tg.StartWrite(world.Payload(0x99, 0, big))
+		} else {
+			tg.Pause()
+			app.StartWrite(world.Payload(0x99, 0, big))
+		}
+		bubble.Wait()
+		if c.Endpoint == "dns" {
+			bubble.Advance(20 * time.Second)
+		}
+		return alive, nil
+	}
 	if c.Endpoint == "dns" {
 		conn, _, err := w.Dns.NewClientConn()
 		if err != nil {
@@ -112,7 +160,7 @@ func stall(w *world.World, c Case) (alive func() bool, err error) {
 
 func execute(t *testing.T, c Case) (kind, detail string) {
 	res := bubble.Run(t, func() {
-		o := world.Options{Channels: []string{"x"}, Keep: true}
+		o := world.Options{Channels: []string{"x", "slow"}, Keep: true}
 		switch c.Endpoint {
 		case "socket":
 			o.Carrier, o.RealLoop = "stream", "socket"
@@ -130,6 +178,7 @@ func execute(t *testing.T, c Case) (kind, detail string) {
 			kind, detail = "setup", err.Error()
 			return
 		}
+		w.Chan("slow").BlockDial = make(chan struct{})
 		bubble.Wait()
 		var alive []func() bool
 		for i := 0; i < c.Stallers; i++ {
